@@ -1,6 +1,6 @@
 ------------------------------ MODULE ScopeGen ------------------------------
 (* TLC as enumerator: writes the cases of one scope family to a file.       *)
-EXTENDS Scope, Json, TLC
+EXTENDS ExprScope, Json, TLC
 
 CONSTANTS Family, Tier, OutFile
 
@@ -33,11 +33,84 @@ AmountCases(B, tier) ==
                      with |-> <<[k |-> "str", s |-> <<120>>], [k |-> "name", name |-> "matchNumber"]>>]>>,
                   Sg, IF Cardinality(Sg) <= 2 THEN hi ELSE hi - 2)]
 
+ReplaceCases(tier) ==
+  LET B == SetToSeq(C05_Bodies)
+      W == SetToSeq(C05_Withs)
+      Sg == {ba, bb, nl}
+  IN [i \in 1..(Len(B) * Len(W)) |->
+        LET bi == ((i - 1) % Len(B)) + 1
+            wi == ((i - 1) \div Len(B)) + 1
+        IN [id |-> i, defs |-> <<>>, trans |-> C05_Trans,
+            cmds |-> <<[kind |-> "replace", amt |-> [k |-> "all"], body |-> B[bi], with |-> W[wi]]>>,
+            sigma |-> SetToSeq(Sg), lo |-> 1, hi |-> IF tier = "quick" THEN 3 ELSE 5]]
+
+(* C06: command lists x file sets x modes x stale .vored                    *)
+FileCases(tier) ==
+  LET single == {<<[kind |-> "find", amt |-> [k |-> "all"], body |-> <<La>>]>>}
+                  \cup {<<[kind |-> "replace", amt |-> [k |-> "all"], body |-> b, with |-> w]>> : b \in C06_Bodies, w \in C06_Withs}
+      second == {[kind |-> "replace", amt |-> [k |-> "all"], body |-> <<Lb>>, with |-> <<WStr(<<ba, ba>>)>>],
+                 [kind |-> "find", amt |-> [k |-> "all"], body |-> <<Cls("any")>>],
+                 [kind |-> "replace", amt |-> [k |-> "skip", s |-> 1], body |-> <<Cls("any")>>, with |-> <<WStr(<<>>)>>]}
+      cmdls  == single \cup {c \o <<d>> : c \in single, d \in second}
+      cont   == StringsUpTo({ba, bb, bc}, 0, IF tier = "quick" THEN 3 ELSE 4)
+      fsets  == {<<[name |-> "f.txt", bytes |-> t]>> : t \in cont}
+                  \cup {<<[name |-> "f.txt", bytes |-> t], [name |-> "g.txt", bytes |-> u]>> :
+                         t \in StringsUpTo({ba, bb}, 0, 2), u \in {<<>>, <<ba, bb>>, <<ba, ba, bb>>}}
+      stale  == {<<>>, <<[name |-> "f.txt.vored", bytes |-> <<122, 122, 122, 122, 122, 122, 122, 122, 122>>]>>}
+      modes  == {"NOTHING", "NEW", "OVERWRITE"}
+      All    == SetToSeq({[cmds |-> c, files |-> f \o st, order |-> [j \in 1..Len(f) |-> f[j].name], mode |-> mo] :
+                            c \in cmdls, f \in fsets, st \in stale, mo \in modes})
+      keep   == IF tier = "quick" THEN 4 ELSE 1
+  IN [i \in 1..(Len(All) \div keep) |->
+        LET a == All[i * keep]
+        IN [id |-> i, defs |-> <<>>, trans |-> <<>>, cmds |-> a.cmds, files |-> a.files, order |-> a.order, mode |-> a.mode]]
+
+ExprCases(tier) ==
+  LET E == SetToSeq(C11_Exprs(tier))
+      B == SetToSeq({e \in C11_Exprs(tier) : TypeOf(e, TEnv0) = "b"})
+  IN [i \in 1..Len(E) |-> C11_Case(i, E[i])] \o [i \in 1..Len(B) |-> C11_PredCase(Len(E) + i, B[i])]
+
+TypingCases(tier) ==
+  LET L == SetToSeq(C12_Lists(tier))
+  IN [i \in 1..(2 * Len(L)) |->
+        IF i <= Len(L) THEN C12_Case(i, L[i], "trans") ELSE C12_Case(i, L[i - Len(L)], "pred")]
+
+(* C13: for every (body, use) the three spellings, as single commands and  *)
+(* as programs of 2-3 commands that share the definitions                   *)
+TransparentCases(tier) ==
+  LET B == SetToSeq(C13_Bodies)
+      hi == IF tier = "quick" THEN 4 ELSE 6
+      One(id, b, u, spl) ==
+        LET body == CASE spl = 0 -> Written(B[b])[u] [] spl = 1 -> InlineSub(B[b])[u] [] spl = 2 -> GlobalRef(B[b])[u]
+            Sg   == SigmaFor(MentionsSeq(B[b]) \cup {"lit"})
+        IN [id |-> id, grp |-> (b - 1) * NUses + u, spelling |-> spl,
+            defs |-> IF spl = 2 THEN <<GDef("s", B[b], <<>>)>> ELSE <<>>,
+            cmds |-> <<FindAllCmd(body)>>, sigma |-> SetToSeq(Sg), lo |-> 1, hi |-> IF Cardinality(Sg) > 2 THEN hi - 1 ELSE hi]
+      n1 == Len(B) * NUses * 3
+      Multi(id, b, spl) ==
+        LET W == CASE spl = 0 -> Written(B[b]) [] spl = 1 -> InlineSub(B[b]) [] spl = 2 -> GlobalRef(B[b])
+            Sg == SigmaFor(MentionsSeq(B[b]) \cup {"lit"})
+        IN [id |-> id, grp |-> 100000 + b, spelling |-> spl,
+            defs |-> IF spl = 2 THEN <<GDef("s", B[b], <<>>)>> ELSE <<>>,
+            cmds |-> <<FindAllCmd(W[2]), FindAllCmd(W[7]), FindAllCmd(W[5])>>,
+            sigma |-> SetToSeq(Sg), lo |-> 1, hi |-> IF Cardinality(Sg) > 2 THEN hi - 1 ELSE hi]
+  IN [i \in 1..n1 |->
+        LET b  == ((i - 1) \div (NUses * 3)) + 1
+            u  == (((i - 1) \div 3) % NUses) + 1
+            spx == (i - 1) % 3
+        IN One(i, b, u, spx)]
+     \o [i \in 1..(Len(B) * 3) |-> Multi(n1 + i, ((i - 1) \div 3) + 1, (i - 1) % 3)]
+
 CasesOf(fam, tier) ==
   CASE fam = "C01"  -> LET A == BodySeqCases(C01_Bodies(tier), tier)
                        IN [i \in 1..Len(A) |-> WithReplace(A[i], 7)] \o GlobalSeqCases(C01_GlobalCases, tier, Len(A))
     [] fam = "C02"  -> BodySeqCases(C02_Bodies, tier)
     [] fam = "C04"  -> AmountCases(C04_BodiesQ, tier)
+    [] fam = "C05"  -> ReplaceCases(tier)
+    [] fam = "C06"  -> FileCases(tier)
+    [] fam = "C13"  -> TransparentCases(tier)
+    [] fam = "C11"  -> ExprCases(tier)
+    [] fam = "C12"  -> TypingCases(tier)
 
 ASSUME ndJsonSerialize(OutFile, CasesOf(Family, Tier))
 ASSUME PrintT(<<"cases", Len(CasesOf(Family, Tier))>>)
